@@ -49,6 +49,9 @@ func constValue(c *ssa.Const) value {
 func (w *Worker) termOf(v value, width int) *Term {
 	switch v := v.(type) {
 	case *Term:
+		if v.S.K == SInt {
+			return w.tc.Int2Bv(v, width)
+		}
 		return v
 	case uint64:
 		return w.tc.BVConst(width, v)
@@ -144,9 +147,18 @@ func (w *Worker) equals(t types.Type, x, y value) value {
 		case uint64:
 			return x == y
 		case *Term:
+			if y.S.K == SInt {
+				bw, signed, _ := intInfo(t)
+				return simp(w.tc.Eq(w.asIntTerm(x, bw, signed), y))
+			}
 			return simp(w.tc.Eq(w.tc.BVConst(y.S.W, x), y))
 		}
 	case *Term:
+		if x.S.K == SInt || isIntSorted(y) {
+			if bw, signed, ok := intInfo(t); ok {
+				return simp(w.tc.Eq(w.asIntTerm(x, bw, signed), w.asIntTerm(y, bw, signed)))
+			}
+		}
 		switch y := y.(type) {
 		case *Term:
 			return simp(w.tc.Eq(x, y))
@@ -488,7 +500,59 @@ func (w *Worker) bytesCompare(x, y []value) value {
 	return res
 }
 
+// isIntSorted reports whether v is a machine integer held as a mathematical
+// integer term (value proven to be in range when it was created).
+func isIntSorted(v value) bool {
+	t, ok := v.(*Term)
+	return ok && t.S.K == SInt
+}
+
+// asIntTerm lifts a machine integer value to a mathematical integer term.
+func (w *Worker) asIntTerm(v value, bw int, signed bool) *Term {
+	switch v := v.(type) {
+	case uint64:
+		if signed {
+			return w.tc.IntConst64(sext64(v, bw))
+		}
+		return w.tc.IntConst(new(big.Int).SetUint64(v))
+	case *Term:
+		if v.S.K == SInt {
+			return v
+		}
+		n := w.tc.Bv2Int(v)
+		if signed {
+			neg := w.tc.BvCmp(OBvSlt, v, w.tc.BVConst(v.S.W, 0))
+			return w.tc.Ite(neg, w.tc.IntBin(OIntSub, n, w.tc.IntConst(new(big.Int).Lsh(big.NewInt(1), uint(v.S.W)))), n)
+		}
+		return n
+	}
+	panic(fmt.Sprintf("asIntTerm: %T", v))
+}
+
 func (w *Worker) intBinop(op token.Token, bw int, signed bool, ty types.Type, x, y value) value {
+	if isIntSorted(x) || isIntSorted(y) {
+		switch op {
+		case token.LSS, token.LEQ, token.GTR, token.GEQ:
+			xt, yt := w.asIntTerm(x, bw, signed), w.asIntTerm(y, bw, signed)
+			switch op {
+			case token.LSS:
+				return simp(w.tc.IntCmp(OIntLt, xt, yt))
+			case token.LEQ:
+				return simp(w.tc.IntCmp(OIntLe, xt, yt))
+			case token.GTR:
+				return simp(w.tc.IntCmp(OIntLt, yt, xt))
+			default:
+				return simp(w.tc.IntCmp(OIntLe, yt, xt))
+			}
+		}
+		// arithmetic: fall back to the bit-vector image
+		if isIntSorted(x) {
+			x = simp(w.tc.Int2Bv(x.(*Term), bw))
+		}
+		if isIntSorted(y) && op != token.SHL && op != token.SHR {
+			y = simp(w.tc.Int2Bv(y.(*Term), bw))
+		}
+	}
 	xc, xok := x.(uint64)
 	yc, yok := y.(uint64)
 	m := mask(bw)
